@@ -401,6 +401,7 @@ def install(I):
     # core hooks: binop / compare / getattr / len / isinstance / getitem on NArr
     I.narr_hooks = True
     install2(I)
+    install_sorting(I)
 
 
 class BinSum(NArr):
@@ -459,6 +460,11 @@ def mask_filter(I, ctx, a, mask):
     i = z3.Int("i_mask")
     allsel = z3.ForAll([i], z3.Implies(z3.And(i >= 0, i < n), B.zbool(mask.elem(i))))
     ctx.assume((cnt == n) == allsel)
+    # the same facts for every position (needed when the element function is applied to a bound variable)
+    jq = z3.Int(ctx.fresh_name("j_sel"))
+    ctx.assume(z3.ForAll([jq], z3.Implies(z3.And(jq >= 0, jq < cnt),
+                                          z3.And(sel(jq) >= 0, sel(jq) < n, B.zbool(mask.elem(sel(jq))), z3.Implies(cnt == n, sel(jq) == jq))),
+                         patterns=[sel(jq)]))
 
     def elem(j):
         jz = B._z(j)
@@ -600,6 +606,114 @@ def lift2(op, a, b):
 
 
 NPROUND = z3.Function("NPROUND", z3.RealSort(), z3.IntSort(), z3.RealSort())
+_ORDERS = {}
+
+
+def order_le(ctx, x, y):
+    """x <= y in the sort order numpy uses: numbers by value; elements of an uninterpreted sort (strings) by an
+    uninterpreted total order LE_<sort> (axioms assumed once per path)"""
+    if isinstance(x, Opaque) and x.e is not None and x.e.sort().kind() == z3.Z3_UNINTERPRETED_SORT:
+        srt = x.e.sort()
+        if srt.name() not in _ORDERS:
+            _ORDERS[srt.name()] = z3.Function("LE_" + srt.name(), srt, srt, z3.BoolSort())
+        LE = _ORDERS[srt.name()]
+        if not ctx.ghost.get("order_axioms_" + srt.name()):
+            ctx.ghost["order_axioms_" + srt.name()] = True
+            ctx.assumed_ext.add("the sort order of strings is a total order (uninterpreted)")
+            a, b, c = z3.Consts("a_o b_o c_o", srt)
+            ctx.assume(z3.ForAll([a, b], z3.Or(LE(a, b), LE(b, a)), patterns=[LE(a, b)]))
+            ctx.assume(z3.ForAll([a, b], z3.Implies(z3.And(LE(a, b), LE(b, a)), a == b), patterns=[z3.MultiPattern(LE(a, b), LE(b, a))]))
+            ctx.assume(z3.ForAll([a, b, c], z3.Implies(z3.And(LE(a, b), LE(b, c)), LE(a, c)), patterns=[z3.MultiPattern(LE(a, b), LE(b, c))]))
+        return LE(x.e, y.e)
+    return B.zreal(x) <= B.zreal(y)
+
+
+def _is_uapp(e):
+    return z3.is_app(e) and e.decl().kind() == z3.Z3_OP_UNINTERPRETED and e.num_args() > 0
+
+
+def install_sorting(I):
+    np_tab = I.ext["numpy"]
+
+    def argsort(ctx, a, **kw):
+        ctx.assumed_ext.add("numpy.argsort(a): a permutation p of the positions with a[p] in non-decreasing order (stability not assumed)")
+        a = as_narr(I, ctx, a)
+        n = zn(a)
+        SIG = z3.Function(ctx.fresh_name("SIG"), z3.IntSort(), z3.IntSort())
+        INV = z3.Function(ctx.fresh_name("SIGINV"), z3.IntSort(), z3.IntSort())
+        p, q = z3.Int(ctx.fresh_name("p_s")), z3.Int(ctx.fresh_name("q_s"))
+        ctx.assume(z3.ForAll([p], z3.Implies(z3.And(p >= 0, p < n), z3.And(SIG(p) >= 0, SIG(p) < n, INV(SIG(p)) == p)), patterns=[SIG(p)]))
+        ep = a.elem(p)
+        ep = ep.e if isinstance(ep, (Sym, Opaque)) and getattr(ep, "e", None) is not None else None
+        pats = [INV(p)] + ([ep] if ep is not None and _is_uapp(ep) else [])
+        ctx.assume(z3.ForAll([p], z3.Implies(z3.And(p >= 0, p < n), z3.And(INV(p) >= 0, INV(p) < n, SIG(INV(p)) == p)), patterns=pats))
+        ctx.assume(z3.ForAll([p, q], z3.Implies(z3.And(0 <= p, p < q, q < n), order_le(ctx, a.elem(SIG(p)), a.elem(SIG(q)))),
+                             patterns=[z3.MultiPattern(SIG(p), SIG(q))]))
+        r = NArr(a.n, lambda i: Sym(SIG(B._z(i))), "int", "argsort")
+        r.perm = (SIG, INV)
+        return r
+    np_tab["argsort"] = Builtin("numpy.argsort", argsort)
+
+    def searchsorted(ctx, a, v, side="left", sorter=None):
+        ctx.assumed_ext.add("numpy.searchsorted(a, v, side='left', sorter): for each v[i] the position p with sorted[q] < v[i] exactly for q < p")
+        if side != "left":
+            raise Unsupported("searchsorted side=" + repr(side))
+        a, v = as_narr(I, ctx, a), as_narr(I, ctx, v)
+        n = zn(a)
+        if sorter is not None:
+            sorter = as_narr(I, ctx, sorter)
+            srt = lambda q: a.elem(smt.simp(B.zint(sorter.elem(q))))
+        else:
+            srt = lambda q: a.elem(q)
+            p, q = z3.Int(ctx.fresh_name("p_s")), z3.Int(ctx.fresh_name("q_s"))
+            ctx.oblige("searchsorted.requires.sorted-array", z3.ForAll([p, q], z3.Implies(z3.And(0 <= p, p < q, q < n), order_le(ctx, a.elem(p), a.elem(q)))), kind="requires")
+        POS = z3.Function(ctx.fresh_name("SPOS"), z3.IntSort(), z3.IntSort())
+        i, q = z3.Int(ctx.fresh_name("i_ss")), z3.Int(ctx.fresh_name("q_ss"))
+        ctx.assume(z3.ForAll([i], z3.Implies(z3.And(i >= 0, i < zn(v)), z3.And(POS(i) >= 0, POS(i) <= n)), patterns=[POS(i)]))
+        sq = B._z(sorter.elem(q)) if sorter is not None else None
+        pats = {"patterns": [z3.MultiPattern(POS(i), sq)]} if sq is not None and _is_uapp(sq) else {}
+        ctx.assume(z3.ForAll([i, q], z3.Implies(z3.And(i >= 0, i < zn(v), q >= 0, q < n),
+                                                (q < POS(i)) == z3.Not(order_le(ctx, v.elem(i), srt(q)))), **pats))
+        return NArr(v.n, lambda j: Sym(POS(B._z(j))), "int", "searchsorted")
+    np_tab["searchsorted"] = Builtin("numpy.searchsorted", searchsorted)
+
+    def isin(ctx, element, test_elements):
+        ctx.assumed_ext.add("numpy.isin(x, t)[i] = some element of t equals x[i]")
+        x, t = as_narr(I, ctx, element), as_narr(I, ctx, test_elements)
+
+        def elem(i):
+            j = z3.Int(ctx.fresh_name("j_isin"))
+            return B.wrap(z3.Exists([j], z3.And(j >= 0, j < zn(t), B._zb(B.eq_formula(I, ctx, t.elem(j), x.elem(i))))))
+        return NArr(x.n, elem, "bool", "isin")
+    np_tab["isin"] = Builtin("numpy.isin", isin)
+
+    def unique(ctx, a, return_index=False, return_inverse=False, return_counts=False):
+        ctx.assumed_ext.add("numpy.unique(a, return_inverse / return_index): the distinct elements in increasing order; u[inverse[j]] == a[j]; "
+                            "a[index[p]] == u[p]")
+        if return_counts:
+            raise Unsupported("numpy.unique(return_counts)")
+        a = as_narr(I, ctx, a)
+        n = zn(a)
+        m = ctx.fresh_int("n_unique")
+        U = NArr(m, None, a.dtype, "unique")
+        IDX = z3.Function(ctx.fresh_name("UIDX"), z3.IntSort(), z3.IntSort())     # position in a of the p-th distinct element
+        INVF = z3.Function(ctx.fresh_name("UINV"), z3.IntSort(), z3.IntSort())   # rank of a[j] among the distinct elements
+        U.elem = lambda p: a.elem(smt.simp(IDX(B._z(p))))
+        p, q, j = z3.Int(ctx.fresh_name("p_u")), z3.Int(ctx.fresh_name("q_u")), z3.Int(ctx.fresh_name("j_u"))
+        ctx.assume(z3.And(m >= 0, m <= n, (m == 0) == (n == 0)))
+        ctx.assume(z3.ForAll([p], z3.Implies(z3.And(p >= 0, p < m), z3.And(IDX(p) >= 0, IDX(p) < n, INVF(IDX(p)) == p)), patterns=[IDX(p)]))
+        ctx.assume(z3.ForAll([p, q], z3.Implies(z3.And(0 <= p, p < q, q < m),
+                                                z3.And(order_le(ctx, U.elem(p), U.elem(q)), z3.Not(B._zb(B.eq_formula(I, ctx, U.elem(p), U.elem(q)))))),
+                             patterns=[z3.MultiPattern(IDX(p), IDX(q))]))
+        ctx.assume(z3.ForAll([j], z3.Implies(z3.And(j >= 0, j < n), z3.And(INVF(j) >= 0, INVF(j) < m,
+                                                                            B._zb(B.eq_formula(I, ctx, U.elem(INVF(j)), a.elem(j))))), patterns=[INVF(j)]))
+        out = [U]
+        if return_index:
+            out.append(NArr(m, lambda x: Sym(IDX(B._z(x))), "int", "unique_index"))
+        if return_inverse:
+            out.append(NArr(a.n, lambda x: Sym(INVF(B._z(x))), "int", "unique_inverse"))
+        return out[0] if len(out) == 1 else TupleVal(out)
+    np_tab["unique"] = Builtin("numpy.unique", unique)
 
 
 def install2(I):
